@@ -197,9 +197,7 @@ def field_map_option(c, which, field_type):
     kw = dict(dim=8, field_type=field_type, field_params=fp)
     with warnings.catch_warnings(), contextlib.redirect_stdout(io.StringIO()):
         warnings.simplefilter('ignore'); np.random.seed(2)
-        ex = np.ones(8) * 1.5 if which == 'Heat1D' else None          # (avoids the default exact solution, which asks the field geometry for its own parameters)
-        extra = dict(exactSolution=ex) if which == 'Heat1D' else {}
-        tp = cls(map=mp, imap=imp, **kw, **extra); tp0 = cls(**kw, **extra)
+        tp = cls(map=mp, imap=imp, **kw); tp0 = cls(**kw)               # with the DEFAULT exact solution of every field type
     g, g0 = tp.model.domain_geometry, tp0.model.domain_geometry
     c.holds('domain_geometry_is_the_mapped_field_geometry', isinstance(g, cuqi.geometry.MappedGeometry) and type(g.geometry) is type(g0), note=f"{type(g).__name__} around {type(getattr(g, 'geometry', None)).__name__} vs {type(g0).__name__}")
     p = 0.5 + np.array([abs(c.real(f'p{i}')) for i in range(g0.par_dim)])
@@ -208,6 +206,9 @@ def field_map_option(c, which, field_type):
         out = np.asarray(tp.model.forward(p), dtype=float)
         ref = np.asarray(tp0.model.forward(mp(np.asarray(g0.par2fun(p), dtype=float)), is_par=False), dtype=float)
     c.eq('forward_applies_the_map_to_the_field_before_solving', out, ref, tol=1e-9)
+    with warnings.catch_warnings():
+        warnings.simplefilter('ignore')
+        c.eq('exact_data_is_the_forward_model_applied_to_the_default_exact_solution', np.asarray(tp.exactData, dtype=float), np.asarray(tp.model.forward(tp.exactSolution), dtype=float), tol=1e-9)
 
 
 def jobs(tier):
